@@ -74,7 +74,7 @@ def main(ctx):
     def k_run():
         return recipe.tlc_only('conn-walks', 'Conn', constants=tla(walks), invariants=INV,
                                properties=PROPS, emit=True, simulate=nwalks, depth=60,
-                               seed=ctx.seed, timeout=1500, heap='3g')
+                               seed=ctx.seed, timeout=1500, heap='3g', budget_ok=True)
 
     with ThreadPoolExecutor(5) as ex:
         fs = [ex.submit(s_run, i, c) for i, c in enumerate(smalls)]
